@@ -31,6 +31,15 @@ def ctc_models(scope, seed):
              ['EQUALS', ['LEN', 'A'], 3], ['OR', ['NOT_EQUALS', 'A', "'x'"], 'B']]
     for k in range(0, len(trees), 25):
         yield {'root': root, 'ctcs': [{'name': f'c{i}', 'ast': t} for i, t in enumerate(trees[k:k + 25])]}
+    # names that differ only in letter case (Constraint equality is case-insensitive on the text of the tree: code that
+    # compares or de-duplicates constraints must not confuse them)
+    twins = ['A', 'a', 'B']
+    root2 = {'name': 'R', 'relations': [{'min': 0, 'max': 1, 'children': [{'name': n, 'relations': []}]} for n in twins]}
+    tw = [['AND', 'a', 'A'], ['AND', ['OR', 'a', 'B'], ['OR', 'A', 'B']], ['AND', ['IMPLIES', 'a', 'B'], ['IMPLIES', 'A', 'B']],
+          ['OR', ['AND', 'a', 'A'], 'B'], ['AND', ['NOT', 'a'], ['NOT', 'A']], ['AND', ['REQUIRES', 'A', 'B'], ['REQUIRES', 'a', 'B']]]
+    tw += [M.random_ctc(rng, twins, 3) for _ in range(40 if scope == 'quick' else 400)]
+    for k in range(0, len(tw), 12):
+        yield {'root': root2, 'ctcs': [{'name': f't{i}', 'ast': t} for i, t in enumerate(tw[k:k + 12])]}
     yield {'root': root, 'ctcs': [{'name': f'a{i}', 'ast': t} for i, t in enumerate(arith)]}
 
 
